@@ -88,6 +88,7 @@ class Prop(PropBase):
         "time_shift_arr": ["BasebandSignal", "DualPolarizationSignal", "IntensitySignal"],
         "freq_shift": ["BasebandSignal", "DualPolarizationSignal"],
         "coherent": ["BasebandSignal", "DualPolarizationSignal"],
+        "coherent_chirp": ["BasebandSignal", "DualPolarizationSignal"],
         "incoherent": ["IntensitySignal", "BasebandSignal", "FullStokesSignal", "DualPolarizationSignal"],
         "concat0": sigs.CLASSES, "concat1": ["RadioSignal", "IntensitySignal", "BasebandSignal", "DualPolarizationSignal"],
         "snippet": ["BasebandSignal", "IntensitySignal", "Signal"],
@@ -136,7 +137,7 @@ class Prop(PropBase):
                     # a second parameter set for the same operation on the same signal: both results are computed in ONE
                     # dask.compute call (shared graph: colliding task names / tokens would mix them up)
                     a2 = self._args(rng, op, c, shape)
-                    if op in ("coherent", "incoherent") and rng.random() < 0.7:
+                    if op in ("coherent", "incoherent", "coherent_chirp") and rng.random() < 0.7:
                         a2 = dict(c["args"], dm=rng.choice([d for d in (1e-5, 3e-5, -2e-5, 1e-6, 2e-6) if d != c["args"]["dm"]]))
                     if op == "freq_shift" and a2 == c["args"]:
                         a2 = {"frac": -c["args"]["frac"]}
@@ -157,7 +158,7 @@ class Prop(PropBase):
             return {"shifts": [round(rng.uniform(-4, 4), 2) for _ in range(shape[1])], "crop": rng.random() < 0.4}
         if op == "freq_shift":
             return {"frac": rng.choice([0.25, -0.125, 0.5, 0.0625, -0.3])}
-        if op in ("coherent", "incoherent"):
+        if op in ("coherent", "incoherent", "coherent_chirp"):
             return {"dm": rng.choice([1e-5, 3e-5, -2e-5, 1e-6]), "ref": rng.choice(["center", "top", "none"])}
         if op in ("concat0", "concat1"):
             return {"split": rng.randint(1, (shape[0] if op == "concat0" else max(shape[1], 2)) - 1) if (op == "concat0" or shape[1] > 1) else 1}
@@ -213,9 +214,12 @@ class Prop(PropBase):
             return pb.time_shift(z, np.array(a["shifts"]), crop=a["crop"])
         if op == "freq_shift":
             return pb.freq_shift(z, a["frac"] * z.sample_rate)
-        if op in ("coherent", "incoherent"):
+        if op in ("coherent", "incoherent", "coherent_chirp"):
             DM = pb.DispersionMeasure(a["dm"])
             ref = {"center": z.center_freq, "top": z.max_freq, "none": None}[a["ref"]]
+            if op == "coherent_chirp":
+                # the optional pre-computed chirp, lazily built for a Dask-backed signal
+                return pb.coherent_dedispersion(z, DM, ref_freq=ref, chirp=DM.chirp_from_signal(z, ref_freq=ref))
             f = pb.coherent_dedispersion if op == "coherent" else pb.incoherent_dedispersion
             return f(z, DM, ref_freq=ref)
         if op == "concat0":
@@ -338,7 +342,17 @@ class Prop(PropBase):
             r_np = e
         counter[0] = 0
         try:
-            r_d = self._apply(c, zd)
+            from dask.callbacks import Callback
+
+            class _Tasks(Callback):
+                n = 0
+
+                def _pretask(self, key, dsk, state):
+                    _Tasks.n += 1
+
+            with _Tasks():
+                r_d = self._apply(c, zd)
+            out["lazy_tasks"] = _Tasks.n            # tasks of ANY graph executed while the result was being built
             out["lazy_count"] = counter[0]
             out["res_dask"] = isinstance(r_d.data, da.Array)
             out["res_type"] = type(r_d).__name__
@@ -358,7 +372,7 @@ class Prop(PropBase):
         out["np_backing"] = "d" if isinstance(r_np.data, da.Array) else "n"
         out["same_attrs"] = bool(invariant.same_attrs(comp, r_np))
         out["attrs_lazy"] = bool(invariant.same_attrs(r_d, r_np))
-        fftish = c["op"] in ("time_shift", "time_shift_arr", "freq_shift", "coherent", "snippet", "stft", "istft")
+        fftish = c["op"] in ("time_shift", "time_shift_arr", "freq_shift", "coherent", "coherent_chirp", "snippet", "stft", "istft")
         out["diff"] = self._close(comp.data, r_np.data, fftish)
         # joint computation with a second parameter set in one graph
         if c.get("args2") and c["args2"] != c["args"]:
@@ -477,6 +491,8 @@ class Prop(PropBase):
             return f"{c['op']} on a Dask-backed {c['cls']} returned an eager result"
         if code.get("lazy_count", 0) != 0:
             return f"building the {c['op']} result materialised the input graph ({code['lazy_count']} block reads before compute)"
+        if code.get("lazy_tasks", 0) != 0:
+            return f"building the {c['op']} result executed {code['lazy_tasks']} Dask tasks (something was computed before compute())"
         if code["comp_backing"] != "n":
             return "compute() left a Dask array"
         if not code["same_attrs"] or not code["attrs_lazy"]:
